@@ -119,7 +119,7 @@ pub trait Backend {
 
 pub struct Exec {
     config: Config,
-    maps: TorrentMaps,
+    pub maps: TorrentMaps,
     state: State,
     statistics: Statistics,
     tx: Sender<StatisticsMessage>,
